@@ -23,6 +23,11 @@ def make_data(seed_vals, n, dim, k, spread=1.0, shift=0.0, unl=0.0, centres=None
         # whole-number features 0..L: the learned range is [0, L] in every dimension, so the value L/2 scales to exactly 0.5 - a
         # grid line of every component grid - and the range ends to the outermost positions
         X = np.round(X * lattice)
+        if not learn:
+            # some mid-range values arrive one rounding step below L/2 (a measured or converted whole number): under the learning
+            # scaling they land within an ulp of the grid line 0.5
+            mid = (X == lattice / 2.0) & (rng.random_sample(X.shape) < 0.4)
+            X[mid] = np.nextafter(lattice / 2.0, 0.0)
         if learn:
             X = np.clip(X, 0, lattice)
             X[0, :] = 0.0
@@ -84,7 +89,8 @@ class C19(Check):
         for j in range(o.randint(1, 5)):
             kind = o.choice(["call", "call", "test", "test", "evaluate", "recall", "own", "continue"])
             where = o.choice(["in", "in", "partly", "out", "unl"])
-            ops.append([kind, where, o.randrange(10 ** 6), o.choice([5, 10, 20])])
+            # (one call in sixteen hands over more than a thousand samples at once: whatever is done per batch of samples inside is crossed)
+            ops.append([kind, where, o.randrange(10 ** 6), o.choice([5, 10, 20] * 5 + [1300])])
         return {"config": cfg, "ops": ops}
 
     def simplify(self, s):
